@@ -134,11 +134,13 @@ PROPS = {
                  "call inside a list lhs, list comparison inside a call argument) among 0-2 random sub-filters that do "
                  "not mention it; values: value expressions. For each: uses()/uses_list() of EVERY field of the scheme "
                  "against the set of identifiers of the generating AST, and 20 non-field names (prefixes, extensions, "
-                 "case variants, function names) that must give an error. distinct_nontrivial = distinct texts that "
-                 "use at least one field."),
+                 "case variants, function names) that must give an error; wide-schemes: schemes of 1..600 fields "
+                 "(around 32/64/128/256), filters over 1-5 fields biased to the last fields and the boundaries, "
+                 "uses()/uses_list() of EVERY field. distinct_nontrivial = distinct texts that use at least one field."),
         "quick": [st("rel")],
         "thorough": [st("rel"), st("dbg")],
-        "floors": {"quick": {"evaluations": 200000, "distinct_nontrivial": 4000, "field_used_in_list": 1000}},
+        "floors": {"quick": {"evaluations": 200000, "distinct_nontrivial": 4000, "field_used_in_list": 1000,
+                             "wide_used_field_index_ge_64": 500}},
         "assumptions": COMMON_ASSUMPTIONS,
     },
     "C13": {
@@ -171,7 +173,7 @@ PROPS = {
                  "order, round trip through four feeds, duplicate names rejected. distinct_nontrivial = distinct types "
                  "with >=1 layer / distinct schemes with >=2 fields."),
         "quick": [st("rel")],
-        "thorough": [st("rel"), st("dbg")],
+        "thorough": [st("rel"), st("dbg"), st("fuzz", target="c15", seconds=180, max_len=1024)],
         "floors": {"quick": {"evaluations": 40000, "distinct_nontrivial": 30000, "scheme_feeds_ok": 4000,
                              "duplicates_rejected": 2000, "too_deep_rejected": 1000}},
         "assumptions": COMMON_ASSUMPTIONS + ["the wasm binding is not executed (no wasm target); its only logic, Scheme: Deserialize with owned keys, is exercised through from_reader/from_value"],
@@ -223,7 +225,7 @@ PROPS = {
                  "give the reference result); values: value expressions - acceptance, static type, and each result is a "
                  "value of the static type or an absence tagged with it. distinct_nontrivial = distinct texts."),
         "quick": [st("rel")],
-        "thorough": [st("rel"), st("dbg")],
+        "thorough": [st("rel"), st("dbg"), st("fuzz", target="c04", seconds=300)],
         "floors": {"quick": {"evaluations": 50000, "distinct_nontrivial": 15000, "accepted": 5000, "rejected": 10000,
                              "random_ill_typed": 3000, "random_well_typed": 4000}},
         "assumptions": COMMON_ASSUMPTIONS + ["the typing rules of harness/src/refsem.rs and the expectation tables of props/c04.rs are the documented rules (reviewed cell by cell against the statement; DESIGN.md 3.3 lists the readings adopted)"],
@@ -301,7 +303,7 @@ PROPS = {
                  "literals/identifiers/numbers, 10^5 call arguments), each in its own process on a 2 MiB-stack thread "
                  "(8 MiB unoptimised) with the stack high-water mark recorded. distinct_nontrivial = distinct inputs."),
         "quick": [st("rel", timeout=1800)],
-        "thorough": [st("rel", timeout=7200), st("dbg", timeout=7200), st("asan", timeout=7200)],
+        "thorough": [st("rel", timeout=7200), st("dbg", timeout=7200), st("asan", timeout=7200), st("fuzz", target="c05", seconds=300)],
         "floors": {"quick": {"evaluations": 150000, "distinct_nontrivial": 60000, "children_run": 57,
                              "parse_errors": 100000, "parsed_ok": 3000}},
         "on_death": "sanitizer",
@@ -323,7 +325,7 @@ PROPS = {
                  "documents. distinct_nontrivial = distinct contexts / documents."),
         "quick": [st("rel"), st("asan")],
         "thorough": [st("rel"), st("dbg"), st("asan"),
-                     st("miri", only="round-trip", jobs=1, shards=16, name="round-trip", timeout=5400)],
+                     st("miri", only="round-trip", jobs=1, shards=16, name="round-trip", timeout=5400), st("fuzz", target="c14", seconds=240, max_len=4096)],
         "floors": {"quick": {"evaluations": 30000, "distinct_nontrivial": 8000, "round_trips_ok": 5000,
                              "mutants_accepted": 3000, "mutants_rejected": 10000, "ffi_ok": 500}},
         "on_death": "sanitizer",
